@@ -106,6 +106,16 @@ def tree_family(tier):
                 d['context'] = ctx
                 d['name'] += f'/{cname}'
                 out.append(d)
+    # namespaces that are not identifiers (a dash, a dot): taken whole, by `uses ... as` and by the context alike
+    for as_mid, as_low in (('ds-v2', None), ('ds-v1', 'v1.2'), ('a b', 'x-1')):
+        for cname in ('exact', 'global+exact', 'uses-as', 'parent-only', 'list-ns'):
+            ctx = contexts(as_mid, as_low).get(cname)
+            if ctx is None:
+                continue
+            d = base_desc(as_mid, as_low, 'jjy')
+            d['context'] = ctx
+            d['name'] += f'/{cname}'
+            out.append(d)
     # inline root config with file children
     d = base_desc('a', None, 'jjy')
     d['configs']['root'] = dict(d['configs']['root'], medium='inline', cname='inline_root')
@@ -134,12 +144,25 @@ def special_family():
     d = base_desc('a', None, 'jjy', values=({'shared': 's0', 'own1': 'leak?', 'own2': 'leak?'}, {'shared': 's1'}, {'own2': 'o'}))
     d['name'] = 'value-of-user-does-not-reach-used-config'
     out.append(d)
-    for val, nm in (('x', 'dtype-str-for-int'), (1.5, 'dtype-float-for-int'), (None, 'dtype-none-ok'), (True, 'dtype-bool-is-int')):
+    for val, nm in (('x', 'dtype-str-for-int'), (1.5, 'dtype-float-for-int'), (None, 'dtype-none-ok'), (True, 'dtype-bool-is-int'),
+                    # wrongly typed values that are FALSY are wrong all the same; a correctly typed falsy value is fine
+                    ('', 'dtype-empty-str-for-int'), (0.0, 'dtype-zero-float-for-int'), ([], 'dtype-empty-list-for-int'), ({}, 'dtype-empty-dict-for-int'), (0, 'dtype-zero-ok')):
         d = base_desc(None, None, 'jjy', values=({'shared': 's0', 'num': val}, {'shared': 's1'}, {'own2': 'o'}))
         d['name'] = nm
         out.append(d)
     d = base_desc(None, None, 'jjy', values=({'shared': 's0'}, {'shared': 's1', 'pth': 5}, {'own2': 'o'}))
     d['name'] = 'dtype-int-for-path'
+    out.append(d)
+    for val, nm in ((0, 'dtype-zero-for-float'), (False, 'dtype-false-for-float'), ('', 'dtype-empty-str-for-float')):
+        d = base_desc(None, None, 'jjy', values=({'shared': 's0', 'rate': val}, {'shared': 's1'}, {'own2': 'o'}))
+        d['name'] = nm
+        out.append(d)
+    d = base_desc(None, None, 'jjy', values=({'shared': 's0'}, {'shared': 's1', 'pth': 0}, {'own2': 'o'}))
+    d['name'] = 'dtype-zero-for-path'
+    out.append(d)
+    d = base_desc('a', None, 'jjy', values=({'shared': 's0'}, {'shared': 's1'}, {'own2': 'o'}))
+    d['context'] = {'kind': 'dict', 'data': {'num': ''}, 'for_namespaces': {'a': {'pth': False}}}
+    d['name'] = 'dtype-falsy-from-context'
     out.append(d)
     # an explicit null is a value (it is not "absent"): it overrides the default, from the file and from contexts
     d = base_desc('a', 'b', 'jjy', values=({'shared': 's0', 'own0': None}, {'shared': 's1', 'own1': None}, {'own2': 'o', 'shared': None}))
